@@ -19,3 +19,8 @@ pub broadcast axiom fn axiom_into_owned<'a, 't, D: Doc>(c: Cow<'a, MetaVarEnv<'t
 pub assume_specification<T>[ Option::<T>::xor ](_0: Option<T>, _1: Option<T>) -> (r: Option<T>)
     where T: std::marker::Destruct
     ensures r == (match (_0, _1) { (Some(a), None) => Some(a), (None, Some(b)) => Some(b), _ => None });
+
+pub assume_specification<'a, 'b, B>[ Cow::<'_, B>::to_mut ](_0: &'b mut Cow<'a, B>) -> (r: &'b mut <B as ToOwned>::Owned)
+    where B: std::marker::MetaSized + ToOwned + ?Sized
+    ensures *r == into_owned_spec::<B>(*old(_0)),
+            *final(_0) == Cow::<'a, B>::Owned(*final(r));
